@@ -10,7 +10,7 @@ from util import call, quiet
 from props.C06 import describe, rules
 
 REQUIRED_THEOREMS = ['Usid.C02.reject_atomic', 'Usid.C02.accept_valid', 'Usid.C02.accept_faithful']
-RULE = ('[also: verbose=True, lazy data in several chunks, main_dset_attrs, dimension values as float64 / float32 arrays; stored quantity / units observed] [also: refusals by HDF5 itself after the validation passed - an unknown compression filter, chunks larger than the dataset] [optional dtype= and compression= keyword arguments included; every eleventh case lazy data with an explicit element type] random calls of write_main_dataset: data as numpy / dask / empty shape + dtype, dimension lists whose product '
+RULE = ('[also: an ancillary pair offered for reuse whose Values matrix has another number of dimensions than its Indices matrix] [also: verbose=True, lazy data in several chunks, main_dset_attrs, dimension values as float64 / float32 arrays; stored quantity / units observed] [also: refusals by HDF5 itself after the validation passed - an unknown compression filter, chunks larger than the dataset] [optional dtype= and compression= keyword arguments included; every eleventh case lazy data with an explicit element type] random calls of write_main_dataset: data as numpy / dask / empty shape + dtype, dimension lists whose product '
         'equals or differs from the data shape, slow_to_fast in {F,T}, custom prefixes (with "-"), reuse of ancillaries '
         'from the same or another file, wrong argument types, and prior group contents with clashing names of every '
         'kind (Position_*, Spectroscopic_*, the main name); after a rejection the corrected call is retried in the '
@@ -20,7 +20,10 @@ PRIOR = ['Position_Indices', 'Position_Values', 'Spectroscopic_Indices', 'Spectr
 ERRORS = ['none', 'none', 'none', 'none', 'pos_size', 'spec_size', 'pos_type', 'spec_type', 'quantity_type', 'data_rank',
           'empty_no_dtype', 'data_type',
           # refusals that can only come from HDF5 itself, i.e. after the arguments passed the library's own validation
-          'bad_compression', 'bad_chunks']
+          'bad_compression', 'bad_chunks',
+          # an ancillary pair offered for reuse whose Values matrix describes another number of dimensions than its
+          # Indices matrix (right length along the axis of the main dataset)
+          'reuse_pair', 'reuse_pair']
 
 
 def _dims(rng, side, prefix):
@@ -54,6 +57,13 @@ def generate(seed, tier):
                       'verbose': rng.random() < 0.15, 'multichunk': rng.random() < 0.5,
                       'main_attrs': rng.choice([None, None, {'note': 5}, {'comment': 'text', 'gain': 2.5}]),
                       'dim_values_as': rng.choice(['list', 'list', 'array', 'f4array'])})
+        if err == 'reuse_pair':
+            rp = derived_rng(seed, 'C02r', i)
+            side = rp.choice(['pos', 'spec'])
+            cases[-1]['reuse_bad_side'] = side
+            cases[-1]['reuse_bad_how'] = rp.choice(['more', 'more', 'fewer'])
+            if not cases[-1]['reuse_' + side]:
+                cases[-1]['reuse_' + side] = rp.choice(['same', 'other'])
         if i % 11 == 10:      # a valid call with lazy data and an element type narrower / wider than the data's
             cases[-1].update({'err': 'none', 'data': 'dask', 'kw_dtype': rng.choice(['f4', 'f8'])})
             cases[-1]['ds'] = dict(ds, dtype=rng.choice(['f8', 'f4']))
@@ -87,7 +97,8 @@ def _args(inp, err):
     a = {'shape': [n, m], 'pos': _declared(ds['pos'], inp['s2f']), 'spec': _declared(ds['spec'], inp['s2f']),
          'pos_bad_type': err == 'pos_type', 'spec_bad_type': err == 'spec_type', 'quantity_ok': err != 'quantity_type',
          'data': inp['data'], 'data_rank_bad': err == 'data_rank', 'empty_no_dtype': err == 'empty_no_dtype',
-         'data_bad_type': err == 'data_type', 'bad_compression': err == 'bad_compression', 'bad_chunks': err == 'bad_chunks'}
+         'data_bad_type': err == 'data_type', 'bad_compression': err == 'bad_compression', 'bad_chunks': err == 'bad_chunks',
+         'reuse_pair_bad': inp.get('reuse_bad_side') if err == 'reuse_pair' else None}
     if err == 'pos_size':
         a['pos'] = copy.deepcopy(a['pos'])
         a['pos'][0]['values'] = a['pos'][0]['values'] + [99]
@@ -114,6 +125,18 @@ def _call(inp, grp, other, a, data_arr):
             if base + 'Indices' not in tgt:
                 with quiet():
                     write_ind_val_dsets(tgt, mk(dims), is_spectral=is_spec, slow_to_fast=inp['s2f'], base_name=base)
+            if a.get('reuse_pair_bad') == side:
+                v = tgt[base + 'Values']
+                mat, attrs = v[()], dict(v.attrs)
+                del tgt[base + 'Values']
+                ax = 0 if is_spec else 1
+                if inp.get('reuse_bad_how') == 'fewer' and mat.shape[ax] >= 2:
+                    mat = np.delete(mat, 0, axis=ax)
+                else:
+                    mat = np.concatenate([mat, np.take(mat, [0], axis=ax)], axis=ax)
+                v = tgt.create_dataset(base + 'Values', data=mat)
+                for k_, v_ in attrs.items():
+                    v.attrs[k_] = v_
             kw['h5_%s_inds' % side] = tgt[base + 'Indices']
             kw['h5_%s_vals' % side] = tgt[base + 'Values']
             if side == 'pos':
@@ -334,6 +357,8 @@ def _model_req(inp, err, members):
     a = _args(inp, err)
 
     def side(key, dims, bad):
+        if a.get('reuse_pair_bad') == key:
+            return {'k': 'reuse_bad', 'base': 'R%s_' % key, 'same': inp['reuse_' + key] == 'same'}
         if inp['reuse_' + key]:
             return {'k': 'reuse', 'base': 'R%s_' % key, 'dims': dims, 'same': inp['reuse_' + key] == 'same'}
         return {'k': 'bad'} if bad else {'k': 'dims', 'dims': dims}
